@@ -37,19 +37,34 @@ assume func (re *regexp.Regexp) ReplaceAll(src, repl []byte) (r []byte)
   ensures rxre == re && sameView(rxsrc, src) && rxsrcl == len(src) && sameView(rxrepl, repl) && rxrepll == len(repl) && sameView(rxres, r) && rxresl == len(r)
   ensures ref(r) == 0 || fresh(r)
 
+-- whether the pattern matches somewhere in the text: a function of the text (a byte slice is not written between the
+-- test and the use of its result in the two functions below, which their frames establish)
+assume pure func (re *regexp.Regexp) MatchString(s string) (ok bool)
+
+assume pure func (re *regexp.Regexp) Match(q []byte) (ok bool)
+
 pred RedactedRepl() = rxrepll == 8 && isS(rxrepl, 0) && rxrepl[3] == 195 && rxrepl[4] == 151 && isE(rxrepl, 5)
 
-func (s RedactableString) StripMarkers() (r string)
+func (s RedactableString) StripMarkers() (res string)
   modifies rxre, rxsrc, rxsrcl, rxrepl, rxrepll, rxres, rxresl
-  ensures [C07] rxre == ReStripMarkers && sameView(rxsrc, s) && rxsrcl == len(s) && rxrepll == 0 && sameView(rxres, r) && rxresl == len(r)
+  -- the first pass is over the receiver; every pass deletes the matches of the marker class
+  assert [C07] rxre == ReStripMarkers && sameView(rxsrc, s) && rxsrcl == len(s) && rxrepll == 0 after "r := ReStripMarkers.ReplaceAllString(string(s), \"\")"
+  loop 1 invariant rxre == ReStripMarkers && rxrepll == 0 && sameView(rxres, r) && rxresl == len(r)
+  ensures [C07] rxre == ReStripMarkers && rxrepll == 0 && sameView(rxres, res) && rxresl == len(res)
+  -- "on arbitrary strings StripMarkers leaves no marker character": the marker class (whose language is the
+  -- regex obligation above) matches nowhere in the result
+  ensures [C07] !ReStripMarkers.MatchString(res)
 
 func (s RedactableString) Redact() (r RedactableString)
   modifies rxre, rxsrc, rxsrcl, rxrepl, rxrepll, rxres, rxresl
   ensures [C07] rxre == ReStripSensitive && sameView(rxsrc, s) && rxsrcl == len(s) && RedactedRepl() && sameView(rxres, r) && rxresl == len(r)
 
-func (s RedactableBytes) StripMarkers() (r []byte)
+func (s RedactableBytes) StripMarkers() (res []byte)
   modifies rxre, rxsrc, rxsrcl, rxrepl, rxrepll, rxres, rxresl, alloc
-  ensures [C07] rxre == ReStripMarkers && sameView(rxsrc, s) && rxsrcl == len(s) && rxrepll == 0 && sameView(rxres, r) && rxresl == len(r)
+  assert [C07] rxre == ReStripMarkers && sameView(rxsrc, s) && rxsrcl == len(s) && rxrepll == 0 after "r := ReStripMarkers.ReplaceAll([]byte(s), nil)"
+  loop 1 invariant rxre == ReStripMarkers && rxrepll == 0 && sameView(rxres, r) && rxresl == len(r) && (ref(r) == 0 || fresh(r))
+  ensures [C07] rxre == ReStripMarkers && rxrepll == 0 && sameView(rxres, res) && rxresl == len(res)
+  ensures [C07] !ReStripMarkers.Match(res)
 
 func (s RedactableBytes) Redact() (r RedactableBytes)
   modifies rxre, rxsrc, rxsrcl, rxrepl, rxrepll, rxres, rxresl, alloc
